@@ -279,7 +279,7 @@ PROPS["C09"] = dict(
          "a leader change happened while some operation was open; distinct by rendered history.",
     runs=[
         dict(test="TestC09Linearizable", quick=dict(checks=1600, shards=16, timeout=600), thorough=dict(checks=160000, shards=16, timeout=3300)),
-        dict(test="TestC09Deployed", quick=dict(checks=96, shards=16, timeout=600), thorough=dict(checks=4800, shards=16, timeout=3300)),
+        dict(test="TestC09Deployed", quick=dict(checks=192, shards=16, timeout=600), thorough=dict(checks=4800, shards=16, timeout=3300)),
     ],
 )
 
